@@ -122,7 +122,8 @@ impl LowConn {
     }
 }
 
-const KEYARGS: [&str; 10] = ["$$token", "$$user_x", "$$permission_$x", "$$secret", "$secret", "secret", "*", "$$*", "*$$", "$$"];
+// (the last ones: a secure name behind a white-space character that is neither blank nor line end -- a different, ordinary key)
+const KEYARGS: [&str; 13] = ["$$token", "$$user_x", "$$permission_$x", "$$secret", "$secret", "secret", "*", "$$*", "*$$", "$$", "\t$$secret", "\t$$token", "\u{a0}$$secret"];
 const TEMPLATES: [&str; 30] = [
     "get {K}", "get-safe {K}", "set {K} lowval", "set-safe {K} 0 lowval", "set-safe {K} 99 lowval", "remove {K}", "increment {K} 1", "increment {K}",
     "watch {K}", "unwatch {K}", "keys {K}", "ls {K}", "keys", "arbiter", "resolve 7 d {K} 1 lowval", "resolve 7 d {K} -2 lowval",
